@@ -182,4 +182,24 @@ def check(tier):
     run_s(rep, tier)
     from . import c11_glue
     c11_glue.run(rep, tier, 'felt')
+    native_validation(rep)
     return rep.finish()
+
+
+def native_validation(rep):
+    """the real Polynomial<Felt> transforms against the specification-level ring arithmetic of vf/spec.py on concrete vectors, at
+    every power-of-two length incl. 512 and 1024 (plumbing / oracle validation; the for-all statements are the solver's)"""
+    for n in [1 << k for k in range(11)]:
+        a = [(37 * i * i + 11 * i + 5) % spec.Q for i in range(n)]
+        b = [(i * 7 + 3) % 5 - 2 for i in range(n)]
+        arg = ','.join(map(str, a))
+        rt = replay.call1(['ntt_roundtrip', arg])
+        if rt != arg:
+            rep.violation('ntt:roundtrip-native', 'ifft(fft(a)) != a natively at n=%d' % n, {'replay_request': ['ntt_roundtrip', arg[:80]], 'got': rt[:80]}); continue
+        rep.replayed += 1
+        if n <= 256:
+            want = ','.join(map(str, spec.negacyclic_mul(a, [x % spec.Q for x in b])))
+            got = replay.call1(['ntt_mul', arg, ','.join(str(x % spec.Q) for x in b)])
+            if got != want:
+                rep.violation('ntt:product-native', 'NTT product differs from the schoolbook negacyclic product natively at n=%d' % n, {'replay_request': ['ntt_mul', arg[:60]], 'got': got[:80], 'expected': want[:80]}); continue
+            rep.replayed += 1
